@@ -86,14 +86,23 @@ def bounds(db, ctx):
         # inlined view: a comparison moved into a private helper (bound passed as an argument) is seen in its caller, under the
         # caller's name — the same instance key as when it is written inline
         f = db.view(f)
-        for ifn, cond, pol, ek, ps in guarded_exits(f.hir):
-            for af, axis, isb in _bound_views(db, f, cond):
-                suffix = NUM[axis]
+        from ..guards import err_exits
+        from ..flow import holds_at
+        for enode, pcs in err_exits(f.hir):
+            conds = [c_ for c_, _ in pcs if isinstance(c_, dict)]
+            for axis, suffix in NUM.items():
+                isb = is_call_to(suffix)
+                # the exit's own guard is the innermost condition on the way to it (earlier ones are other checks that were passed)
+                cond = conds[-1] if conds and mentions(conds[-1], isb) else None
+                if cond is None:
+                    continue
+                af = f
                 x = var_side(cond, isb)
-                vals = []
-                for p in (-1, 0, 1):
-                    v = eval3(cond, bound_cmp_evaluator(isb, p))
-                    vals.append(bool(v is not None and v == pol))
+                # rejected at x = n-1, n, n+1 <=> this error exit is reachable there
+                vals = [holds_at(pcs, bound_cmp_evaluator(isb, p)) is not False for p in (-1, 0, 1)]
+                ek = "err"
+                pol = True
+                ifn = enode
                 from ..inline import nf as _nf
                 xs = _nf(x) if x else "?"     # canonical, let-expanded: the key must not depend on a local's name
                 if len(xs) > 60 and x is not None:
@@ -105,8 +114,9 @@ def bounds(db, ctx):
                 xty = (x or {}).get("ty", "")
                 if xty.startswith("i"):
                     # a signed compared value needs its own `< 0` rejection in the same function
-                    signed_ok = any(_rejects_negative(c2, pol2) for _, c2, pol2, ek2, _ in guarded_exits(f.hir))
-                ok = vals == [False, True, True] and ek == "err" and not narrow and signed_ok
+                    signed_ok = any(_rejects_negative(c2, pol2) for _, c2, pol2, ek2, _ in guarded_exits(f.hir)) or \
+                        any(holds_at(pcs2, _const_cmp_evaluator(-1)) is True and holds_at(pcs2, _const_cmp_evaluator(0)) is not True for _, pcs2 in err_exits(f.hir))
+                ok = vals == [False, True, True] and not narrow and signed_ok
                 n_inst += 1
                 ctx.ob("%s|%s|%s" % (af.short(), "num_" + axis, xs), ok,
                        "%s: guard `%s`%s (%s-exit when %s) must reject x=n and x=n+1 and accept x=n-1 against %s(); "
@@ -254,13 +264,18 @@ def _sanitized_write(db, wf, v, raw, adt, name, role, elem):
     # (3) a rejecting guard in the writer compares this field / these elements with the matching dimension
     isb = is_call_to(NUM.get(role, "\0"))
     vo = {o for o in origins(db, wf, raw, depth=0) if o[0] in ("field", "param", "call")}
-    for ifn, cond, pol, ek, ps in guarded_exits(wf.hir):
-        if ek != "err" or role not in NUM or not mentions(cond, isb):
-            continue
+    from ..guards import err_exits
+    from ..db import deref_all
+    cands = []
+    for enode, pcs_ in err_exits(wf.hir):
+        cs_ = [c_ for c_, _ in pcs_ if isinstance(c_, dict)]
+        if cs_ and role in NUM and mentions(cs_[-1], isb):
+            cands.append(cs_[-1])
+    for cond in cands:
         x = var_side(cond, isb)
         if x is None:
             continue
-        px = peel_casts(x)
+        px = deref_all(x)       # through a helper's parameter (inlined view) or a hoisted let
         if px.get("k") == "Field" and px.get("name") == name and px.get("adt") == adt:
             return True, "rejecting comparison of .%s with %s() in the writer (polarity decided by C20.bounds)" % (name, NUM[role].split("::")[-1])
         xo = {o for o in origins(db, wf, x, depth=0) if o[0] in ("field", "param", "call")}
